@@ -4,6 +4,10 @@
 -/
 import Fbr.Ovl
 import Fbr.Lemmas.OvlMerge
+import Fbr.Lemmas.OvlHoare
+import Fbr.Lemmas.OvlInv
+import Fbr.Lemmas.OvlSimLookup
+import Fbr.Lemmas.OvlSimRO
 
 namespace Fbr.Thm.C11
 open Fbr.Ovl
@@ -14,5 +18,36 @@ theorem set_opaque_sets (L : Layer) (p : Path) (m o x : Nat) (h : L p = .dir m o
   refine ⟨L.set p (.dir m 1 x), ?_, ?_⟩
   · simp [hSetOpaque, h]
   · simp [Layer.set]
+
+/-! ## restart
+
+  `importFs s.disk` is a second `OverlayFs` started over the directories as the history left
+  them.  -/
+
+/-- After ANY history of operations (modifying or not, successful or failed) a freshly started
+    overlay over the same directories shows exactly the overlayfs union of what is on disk then
+    — at every path.  (The layer roots stay directories along every history: `run_rootsOK`.) -/
+theorem restart_view_is_merge (d : Disk) (hr : d.RootsOK) (ops : List Op) (p : List Name) :
+    liveView (importFs (run (importFs d) ops).disk) p = merge (run (importFs d) ops).disk p.reverse := by
+  have hroots := run_rootsOK d hr ops
+  have h := import_consistent _ hroots
+  rw [consistent_view_is_merge _ h.1, h.2]
+
+/-- Restart equals live whenever the live forest is a valid cache of the disk. -/
+theorem restart_view_eq_live_of_consistent (s : St) (hc : Consistent s) (p : List Name) :
+    liveView (importFs s.disk) p = liveView s p := by
+  have h := import_consistent s.disk hc.roots
+  rw [consistent_view_is_merge _ h.1, h.2, consistent_view_is_merge s hc]
+
+/-- `restart_view_eq_live`, PARTIAL: proved for histories of non-modifying operations (which do
+    change the in-memory forest by loading directories).  For histories with modifying operations
+    the missing link is the preservation of `Consistent` (see `C10.view_is_merge_partial`); the
+    restart side is fully proved (`restart_view_is_merge`). -/
+theorem restart_view_eq_live_partial (d : Disk) (hr : d.RootsOK) (ops : List Op)
+    (hops : ∀ op ∈ ops, op.isModifying = false) (p : List Name) :
+    liveView (importFs (run (importFs d) ops).disk) p = liveView (run (importFs d) ops) p := by
+  have h0 := import_consistent d hr
+  have h := run_ro_cd d ops hops _ ⟨h0.1, h0.2⟩
+  exact restart_view_eq_live_of_consistent _ h.1 p
 
 end Fbr.Thm.C11
